@@ -169,10 +169,17 @@ func (P) Monitor(c *hx.CaseRun) []hx.Failure {
 		under bool
 	}
 	itm := map[int]itMeta{}
-	recorded := map[int]int{}    // ops recorded in a batch since bnew/breset (ValueSize laws)
-	valBytes := map[int]int{}    // bytes of the values queued by Set since bnew/breset
-	lastSize := map[string]int{} // backend/id -> last ValueSize seen while recording
-	var lastWritten []bop        // the ops of the batch written last (diagnosis of aliased keys)
+	// KNOWN FINDING prefix-seek-no-effect: what a view iterator delivers if Seek does not move it (prefixIterator.Seek has a
+	// value receiver).  An answer that differs from the reference but equals this prediction gets that class; anything else
+	// keeps its generic class, so the finding hides no other violation.
+	noeff := map[int][][2][]byte{}
+	born := map[int]bool{}
+	seeked := map[int]bool{}
+	emptyRevSeek := map[int]bool{} // the last Seek of this (reverse) iterator used the empty non-nil key
+	recorded := map[int]int{}      // ops recorded in a batch since bnew/breset (ValueSize laws)
+	valBytes := map[int]int{}      // bytes of the values queued by Set since bnew/breset
+	lastSize := map[string]int{}   // backend/id -> last ValueSize seen while recording
+	var lastWritten []bop          // the ops of the batch written last (diagnosis of aliased keys)
 	r := &refState{}
 	sharded := false
 	suffix := ""
@@ -221,7 +228,7 @@ func (P) Monitor(c *hx.CaseRun) []hx.Failure {
 					fail("durable_reopen", b+":reshard-roundtrip", "libs/db/common.go:dbIndex", fmt.Sprintf("`%s` -> %s", op, clipS(ans, 200)))
 				}
 			case "corrupt-open": // an overwritten store either fails to open or still has its content: never a silent loss
-				if onDisk && len(parts) >= 3 && parts[1] == "ok" && parts[2] != "v=01" && (b != "ldb" || findingLdbSilentRecover) {
+				if onDisk && len(parts) >= 3 && parts[1] == "ok" && parts[2] != "v=01" && b != "ldb" { // goleveldb's RecoverFile fallback: an observation (durability under corruption is not this property)
 					fail("durable_reopen", "open-after-corruption-loses-data-silently", "libs/db/go_level_db.go:NewGoLevelDB", fmt.Sprintf("`%s` -> %s: the store opened without an error and the committed key is gone", op, ans))
 				}
 			}
@@ -301,6 +308,7 @@ func (P) Monitor(c *hx.CaseRun) []hx.Failure {
 			exists[id()] = true
 		}
 		want := ""
+		altWant := "" // prediction under the known finding prefix-seek-no-effect ("" = none)
 		failK := func(n, mon, class, g, w, msg string) {
 			site := "libs/db"
 			if k := knownClass(n, name, under, toks, r, g, w); k != "" {
@@ -355,6 +363,9 @@ func (P) Monitor(c *hx.CaseRun) []hx.Failure {
 			rv, _ := hx.Arg(toks, "rev")
 			iters[id()] = r.iter(arg("s"), arg("e"), rv == "1", under)
 			itm[id()] = itMeta{arg("s"), arg("e"), rv == "1", under}
+			noeff[id()] = iters[id()]
+			born[id()] = len(iters[id()]) > 0
+			seeked[id()] = false
 			want = "ok"
 		case "iseek":
 			// ground truth (what all four adapters agree on): Seek(k) restarts the iterator at k, same end, same direction
@@ -363,9 +374,24 @@ func (P) Monitor(c *hx.CaseRun) []hx.Failure {
 				want = "noiter"
 				break
 			}
-			m.s = arg("k")
+			kk, _ := hx.Arg(toks, "k")
+			emptyRevSeek[id()] = m.rev && kk == "-"
+			if r.hasPref && !m.under {
+				seeked[id()] = true
+				// the throw-away iterator: forward over the STORE from prefix+k to the UNPREFIXED view end
+				from := append(append([]byte{}, r.prefix...), arg("k")...)
+				any := false
+				for fk := range r.m {
+					if bytes.Compare([]byte(fk), from) >= 0 && (m.e == nil || bytes.Compare([]byte(fk), m.e) < 0) {
+						any = true
+					}
+				}
+				altWant = fmt.Sprint(born[id()] && any)
+			} else {
+				m.s = arg("k") // Domain() of a store iterator follows the seek; a view iterator keeps its own
+			}
 			itm[id()] = m
-			iters[id()] = r.iter(m.s, m.e, m.rev, m.under)
+			iters[id()] = r.iter(arg("k"), m.e, m.rev, m.under)
 			want = fmt.Sprint(len(iters[id()]) > 0)
 		case "idomain":
 			if m, ok := itm[id()]; ok {
@@ -374,12 +400,25 @@ func (P) Monitor(c *hx.CaseRun) []hx.Failure {
 				want = "noiter"
 			}
 		case "ivalid":
+			if seeked[id()] {
+				altWant = fmt.Sprint(len(noeff[id()]) > 0)
+			}
 			if it, ok := iters[id()]; ok {
 				want = fmt.Sprint(len(it) > 0)
 			} else {
 				want = "noiter"
 			}
 		case "ikey", "ivalue":
+			if seeked[id()] {
+				switch ne := noeff[id()]; {
+				case len(ne) == 0:
+					altWant = "panic"
+				case name == "ikey":
+					altWant = hx.Hex(ne[0][0])
+				default:
+					altWant = hx.Hex(ne[0][1])
+				}
+			}
 			it, ok := iters[id()]
 			switch {
 			case !ok:
@@ -392,6 +431,9 @@ func (P) Monitor(c *hx.CaseRun) []hx.Failure {
 				want = hx.Hex(it[0][1])
 			}
 		case "inext":
+			if ne := noeff[id()]; len(ne) > 0 {
+				noeff[id()] = ne[1:]
+			}
 			it, ok := iters[id()]
 			switch {
 			case !ok:
@@ -405,8 +447,12 @@ func (P) Monitor(c *hx.CaseRun) []hx.Failure {
 		case "bigbatch": // atomic visibility: nothing before Write, everything after
 			nstr, _ := hx.Arg(toks, "n")
 			for _, n := range live {
-				if got[n] != "visible-before-write=0/3 after="+nstr {
-					fail("batch_atomic", "big-batch-split", "libs/db/bolt_db.go:boltBatch.Set", fmt.Sprintf("`%s` on %s -> %s: a part of the batch was visible before Write (or not everything after)", op, n, got[n]))
+				switch got[n] {
+				case "visible-before-write=0/3 after=" + nstr:
+				case "visible-before-write=2/3 after=" + nstr: // exactly the known deviation: an early part, everything after Write
+					fail("batch_atomic", "big-batch-split", "libs/db/bolt_db.go:boltBatch.Set", fmt.Sprintf("`%s` on %s -> %s: a part of the batch was visible before Write", op, n, got[n]))
+				default:
+					fail("batch_atomic", n+":bigbatch", "libs/db", fmt.Sprintf("`%s` on %s -> %s: not everything of the batch arrived (or more than the known early part)", op, n, got[n]))
 				}
 			}
 			continue
@@ -458,12 +504,19 @@ func (P) Monitor(c *hx.CaseRun) []hx.Failure {
 					fail("batch_value_size", n+":valuesize-decreases", "libs/db", fmt.Sprintf("`%s` on %s: ValueSize() went from %d to %d while recording", op, n, prev, sz))
 				}
 				lastSize[key] = sz
-				if findingValueSizeNotBytes && sz < valBytes[id()] {
-					fail("batch_value_size", "valuesize-below-queued-bytes", "libs/db/go_level_db.go:goLevelDBBatch.ValueSize", fmt.Sprintf("`%s` on %s: ValueSize() = %d but the Sets queued %d value bytes (libs/trie/database.go flushes when ValueSize() >= IdealBatchSize)", op, n, sz, valBytes[id()]))
-				}
 			}
 			continue
 		case "istep":
+			if seeked[id()] {
+				if ne := noeff[id()]; len(ne) == 0 {
+					altWant = "end"
+				} else {
+					altWant = hx.Hex(ne[0][0]) + ":" + hx.Hex(ne[0][1])
+				}
+			}
+			if ne := noeff[id()]; len(ne) > 0 {
+				noeff[id()] = ne[1:]
+			}
 			it, ok := iters[id()]
 			switch {
 			case !ok:
@@ -591,6 +644,22 @@ func (P) Monitor(c *hx.CaseRun) []hx.Failure {
 					kind = "under-" + kind
 				}
 				devs = append(devs, n)
+				if altWant != "" && got[n] == altWant {
+					fail("seek_repositions", "prefix-seek-no-effect", "libs/db/prefix_db.go:prefixIterator.Seek", fmt.Sprintf("`%s` (op %d) on %s: got %s, the reference says %s: the iterator of the prefix view is where it was before Seek", op, i, n, clipS(got[n], 100), clipS(want, 100)))
+					continue
+				}
+				if cls := scribbled(got[n], want); cls != "" { // 0xEE = the harness's overwrite of a buffer it had lent to a write
+					site := "libs/db/mem_db.go:SetNoLockSync"
+					if cls == "batch-keeps-caller-key" {
+						site = "libs/db:Batch.Set/Delete"
+					}
+					fail("caller_buffers_copied", cls, site, fmt.Sprintf("`%s` (op %d) on %s: got %s, reference says %s: the store shows the bytes the caller wrote into ITS buffer after the call", op, i, n, clipS(got[n], 100), clipS(want, 100)))
+					continue
+				}
+				if n == "bdg" && emptyRevSeek[id()] && opKind(name) != "lookup" && (strings.HasPrefix(name, "i")) {
+					fail("seek_repositions", "badger-seek-empty-reverse", "libs/db/badger_db.go:badgerIterator.Seek", fmt.Sprintf("`%s` (op %d) on bdg after Seek with the empty key on a reverse iterator: got %s, reference says %s", op, i, clipS(got[n], 100), clipS(want, 100)))
+					continue
+				}
 				if aliasedBatch(lastWritten, got[n], want) {
 					fail("batch_atomic", "batch-keeps-only-last-key", "libs/db/prefix_db.go:prefixBatch.Set", fmt.Sprintf("`%s` (op %d) on %s after a written batch with several keys: only the key of the LAST recorded op arrived (got %s, reference says %s): the recorded keys alias one buffer", op, i, n, clipS(got[n], 120), clipS(want, 120)))
 					continue
@@ -662,13 +731,56 @@ func aliasedBatch(b []bop, got, want string) bool {
 	return n <= 1 && (n == 0 || inGot[last])
 }
 
-// open finding (proposed/C19-valuesize.md): ValueSize() is not the number of queued bytes on goleveldb (always 0), bolt and
-// badger (op counts); true = enforce "ValueSize() >= bytes of the queued values"
-const findingValueSizeNotBytes = false
-
-// open finding (proposed/C19-use-after-close-and-open-errors.md): NewGoLevelDB falls back to leveldb.RecoverFile on ANY open
-// error and comes up empty/partial without telling anybody
-const findingLdbSilentRecover = false
+// scribbled: does the answer show the harness's 0xEE overwrite where the reference has real bytes?  keys -> the batch (or store)
+// kept the caller's key slice; values -> it kept the value slice
+func scribbled(got, want string) string {
+	allEE := func(b []byte) bool {
+		if len(b) == 0 {
+			return false
+		}
+		for _, x := range b {
+			if x != 0xEE {
+				return false
+			}
+		}
+		return true
+	}
+	if strings.HasPrefix(got, "v=") && got != want {
+		if allEE(hx.UnHex(got[2:])) {
+			return "memdb-keeps-caller-value"
+		}
+		return ""
+	}
+	g, ok1 := parseKVs(got)
+	w, ok2 := parseKVs(want)
+	if !ok1 || !ok2 {
+		if i := strings.Index(got, ":"); i > 0 && !strings.Contains(got, "=") && got != want { // istep answer k:v
+			k, v := hx.UnHex(got[:i]), hx.UnHex(got[i+1:])
+			if allEE(k) && !strings.HasPrefix(want, got[:i]+":") {
+				return "batch-keeps-caller-key"
+			}
+			if allEE(v) {
+				return "memdb-keeps-caller-value"
+			}
+		}
+		return ""
+	}
+	wk := map[string]string{}
+	for _, x := range w {
+		wk[string(x[0])] = string(x[1])
+	}
+	for _, x := range g {
+		if _, ok := wk[string(x[0])]; !ok && allEE(x[0]) {
+			return "batch-keeps-caller-key"
+		}
+	}
+	for _, x := range g {
+		if v, ok := wk[string(x[0])]; ok && v != string(x[1]) && allEE(x[1]) {
+			return "memdb-keeps-caller-value"
+		}
+	}
+	return ""
+}
 
 func clipS(s string, n int) string {
 	if len(s) <= n {
